@@ -461,7 +461,7 @@ impl TestCaseConfig {
                 let path = if is_plain {
                     path.to_string()
                 } else {
-                    serde_json::to_string(&path).unwrap_or_else(|_| format!("\"{}\"", path))
+                    yaml_double_quoted(&path)
                 };
                 output.push(format!(
                     "wait: {{timeout: {}, path: {}}}",
@@ -478,7 +478,7 @@ impl TestCaseConfig {
                 envvars.push(format!(
                     "{}: {}",
                     key,
-                    serde_json::to_string(value).unwrap_or_else(|_| format!("\"{}\"", value))
+                    yaml_double_quoted(value)
                 ))
             }
             output.push(format!("environment: {{{}}}", envvars.join(", ")));
@@ -490,6 +490,22 @@ impl TestCaseConfig {
         self.skip_document_code
             .unwrap_or(DEFAULT_SKIP_DOCUMENT_CODE)
     }
+}
+
+/// A JSON string is a valid double quoted YAML scalar, except for the characters that a YAML
+/// reader treats as line break or refuses when they are not escaped
+fn yaml_double_quoted(value: &str) -> String {
+    let quoted = serde_json::to_string(value).unwrap_or_else(|_| format!("\"{}\"", value));
+    let mut out = String::with_capacity(quoted.len());
+    for ch in quoted.chars() {
+        match ch {
+            '\u{7f}'..='\u{9f}' | '\u{2028}' | '\u{2029}' | '\u{feff}' | '\u{fffe}' | '\u{ffff}' => {
+                out.push_str(&format!("\\u{:04X}", ch as u32))
+            }
+            _ => out.push(ch),
+        }
+    }
+    out
 }
 
 impl Display for TestCaseConfig {
